@@ -41,9 +41,7 @@ func (s *sessions) update(sess *session) {
 			// Cancel the one in the cache and add this one.
 			i.mux.Lock()
 			defer i.mux.Unlock()
-			if i.cancel != nil {
-				i.cancel <- true
-			}
+			i.cancelRenewal()
 			s.Entries[sess.realm] = sess
 			return
 		}
@@ -120,12 +118,22 @@ func (s *session) update(tgt messages.Ticket, dep messages.EncKDCRepPart) {
 func (s *session) destroy() {
 	s.mux.Lock()
 	defer s.mux.Unlock()
-	if s.cancel != nil {
-		s.cancel <- true
-	}
+	s.cancelRenewal()
 	s.endTime = time.Now().UTC()
 	s.renewTill = s.endTime
 	s.sessionKeyExpiration = s.endTime
+}
+
+// cancelRenewal tells the session's auto renewal goroutine to stop. The caller holds the session's lock.
+// The signal is never waited for: one that is already pending is enough, and the goroutine may have ended
+// already (a blocking send would then hold the locks of the caller for ever).
+func (s *session) cancelRenewal() {
+	if s.cancel != nil {
+		select {
+		case s.cancel <- true:
+		default:
+		}
+	}
 }
 
 // valid informs if the TGT is still within the valid time window
